@@ -49,6 +49,7 @@ def _chunk(seeds):
         rec = dict(case)
         rec["response"] = gqlmini.enc_response(res)
         rec["calls"] = calls
+        rec["conforming"] = False
         rec["_meta"] = {"seed": sd, "query": text, "variables": gqlmini.render_vars(case)}
         # clause 4: same request again, and after another request on the same schema/document objects
         hist = []
